@@ -19,7 +19,8 @@ LEVEL = 'model_checking'
 
 ATOMS = ['a', ' ', '\n', '{', '}', '$', '%', '~', '-', '\\[', '\\]', '\\alpha', '\\textbf', '\\frac', "\\'", 'e',
          '\\emph', '\\sqrt', '[', ']', '\\item', '\\begin{itemize}', '\\end{itemize}', '\\begin{foo}', '\\end{foo}',
-         '\\begin{equation}', '\\end{equation}', '&', '`', '\\i', '\\\\', '\\(', '\\)', "'", '\\text', '\\c', 'c']
+         '\\begin{equation}', '\\end{equation}', '&', '`', '\\i', '\\\\', '\\(', '\\)', "'", '\\text', '\\c', 'c',
+         '\\alpha ', '%c\n', '\\alpha\t']      # compound atoms: reach macro + blank + comment + text within K = 3
 BLOCKS = ['a', '{a}', '\\textbf{b}', '$x$', 'a~b', '\\frac{a}{b}', '\\[x\\]', '\\begin{itemize}\\item a\\end{itemize}',
           'a--b', "\\'e", '\\emph{a $y$}', '{\\alpha}', '\\begin{equation}x\\end{equation}', 'a%c\nb']
 POLS = ['macros', 'based-on-source', 'except-in-equations', 'true']
